@@ -218,4 +218,120 @@ theorem reserved_zero_ignored (h : Nat) (rest : List Nat) (hb : h < 256) :
       (fun v k hk => hdr1_consumes ver _ v k hk)
   exact ⟨key pduV0Rx 0 _ rfl, key pduV0Tx 0 _ rfl, key pduV1Rx 1 _ rfl, key pduV1Tx 1 _ rfl⟩
 
+/-! ## the documented octet layout (v0, v1) -/
+
+def valsTx (ver tn fn pwr : Nat) (bits : List Nat) : Vals :=
+  [("ver", .int ver), ("tn", .int tn), ("fn", .int fn), ("pwr", .int pwr), ("hard-bits", .bytes bits)]
+
+def valsRxV0 (tn fn : Nat) (rssi toa256 : Int) (bits pad : List Nat) : Vals :=
+  [("ver", .int 0), ("tn", .int tn), ("fn", .int fn), ("rssi", .int rssi), ("toa256", .int toa256),
+   ("soft-bits", .bytes bits), ("pad", .bytes pad)]
+
+/-- `burst = [("soft-bits", bits)]`, or `[]` for a NOPE indication -/
+def valsRxV1 (tn fn : Nat) (rssi toa256 : Int) (nope mod tsc : Nat) (ci : Int) (burst : Vals) : Vals :=
+  [("ver", .int 1), ("tn", .int tn), ("fn", .int fn), ("rssi", .int rssi), ("toa256", .int toa256),
+   ("nope", .int nope), ("mod", .int mod), ("tsc", .int tsc), ("cir", .int ci)] ++ burst
+
+/-- the burst-length table of the live v1 definition -/
+def burstTable : List (Int × Nat) :=
+  match pduV1Rx.fs with
+  | [_, _, _, _, _, _, .buf _ _ (.table _ t)] => t
+  | _ => []
+
+/-- the field structure of the four v0/v1 classes, as regenerated from the live module -/
+theorem v01_shape :
+    pduV0Tx = ⟨true, [hdr1 0, .int "fn" .always 4 .big false 0 1, .int "pwr" .always 1 .big false 0 1,
+      .buf "hard-bits" .always .rest]⟩
+    ∧ pduV1Tx = ⟨true, [hdr1 1, .int "fn" .always 4 .big false 0 1, .int "pwr" .always 1 .big false 0 1,
+      .buf "hard-bits" .always .rest]⟩
+    ∧ pduV0Rx = ⟨true, [hdr1 0, .int "fn" .always 4 .big false 0 1, .int "rssi" .always 1 .big false 0 (-1),
+      .int "toa256" .always 2 .big true 0 1, .buf "soft-bits" .always (.thresh 150 444 148), .buf "pad" .always .rest]⟩
+    ∧ pduV1Rx = ⟨true, [hdr1 1, .int "fn" .always 4 .big false 0 1, .int "rssi" .always 1 .big false 0 (-1),
+      .int "toa256" .always 2 .big true 0 1, mtsSet, .int "cir" .always 2 .big true 0 1,
+      .buf "soft-bits" (.flagFalse "nope") (.table "mod" burstTable)]⟩ :=
+  ⟨rfl, rfl, rfl, rfl⟩
+
+theorem burstTable_spec : ∀ m : Nat, m < 16 →
+    (match tableGet burstTable (m : Int) with | .ok n => some n | .error _ => none) = burstLen m := by
+  decide
+
+theorem tableGet_of_spec (m L : Nat) (hm : m < 16) (h : burstLen m = some L) :
+    tableGet burstTable (m : Int) = .ok L := by
+  have := burstTable_spec m hm
+  rw [h] at this
+  cases hg : tableGet burstTable (m : Int) with
+  | error e => simp [hg] at this
+  | ok n => simp [hg] at this; rw [this]
+
+/-- Tx PDU, versions 0 and 1: `enc v` is the documented layout -/
+theorem layout_tx (ver tn fn pwr : Nat) (bits : List Nat) (h1 : tn < 8) (h2 : fn < 4294967296) (h3 : pwr < 256) :
+    (ver = 0 → toBytes pduV0Tx (valsTx ver tn fn pwr bits) = .ok (layoutTx ver tn fn pwr bits))
+    ∧ (ver = 1 → toBytes pduV1Tx (valsTx ver tn fn pwr bits) = .ok (layoutTx ver tn fn pwr bits)) := by
+  have e1 := u32_enc "fn" (valsTx ver tn fn pwr bits) fn (by simp [valsTx, Vals.get]) h2
+  have e2 := u8_enc "pwr" (valsTx ver tn fn pwr bits) pwr (by simp [valsTx, Vals.get]) h3
+  have e3 := fieldTo_buf_eval "hard-bits" .rest (valsTx ver tn fn pwr bits) bits (by simp [valsTx, Vals.get]) rfl
+    .always rfl
+  refine ⟨fun hv => ?_, fun hv => ?_⟩
+  · subst hv
+    have e0 := hdr1_enc 0 0 tn (valsTx 0 tn fn pwr bits) rfl (by omega) h1 (by simp [valsTx, Vals.get])
+    rw [v01_shape.1]
+    simp only [toBytes, envTo, e0, e1, e2, e3, layoutTx]
+    simp
+  · subst hv
+    have e0 := hdr1_enc 1 1 tn (valsTx 1 tn fn pwr bits) rfl (by omega) h1 (by simp [valsTx, Vals.get])
+    rw [v01_shape.2.1]
+    simp only [toBytes, envTo, e0, e1, e2, e3, layoutTx]
+    simp
+
+/-- Rx PDU version 0 (with the optional legacy padding) -/
+theorem layout_rx_v0 (tn fn : Nat) (rssi toa256 : Int) (bits pad : List Nat) (h1 : tn < 8) (h2 : fn < 4294967296)
+    (h3 : -255 ≤ rssi ∧ rssi ≤ 0) (h4 : -32768 ≤ toa256 ∧ toa256 ≤ 32767) :
+    toBytes pduV0Rx (valsRxV0 tn fn rssi toa256 bits pad) = .ok (layoutRxV0 tn fn rssi toa256 bits pad) := by
+  have e0 := hdr1_enc 0 0 tn (valsRxV0 tn fn rssi toa256 bits pad) rfl (by omega) h1 (by simp [valsRxV0, Vals.get])
+  have e1 := u32_enc "fn" (valsRxV0 tn fn rssi toa256 bits pad) fn (by simp [valsRxV0, Vals.get]) h2
+  have e2 := neg_u8_enc "rssi" (valsRxV0 tn fn rssi toa256 bits pad) rssi (by simp [valsRxV0, Vals.get]) h3.1 h3.2
+  have e3 := i16_enc "toa256" (valsRxV0 tn fn rssi toa256 bits pad) toa256 (by simp [valsRxV0, Vals.get]) h4.1 h4.2
+  have e4 := fieldTo_buf_eval "soft-bits" (.thresh 150 444 148) (valsRxV0 tn fn rssi toa256 bits pad) bits
+    (by simp [valsRxV0, Vals.get]) rfl .always rfl
+  have e5 := fieldTo_buf_eval "pad" .rest (valsRxV0 tn fn rssi toa256 bits pad) pad
+    (by simp [valsRxV0, Vals.get]) rfl .always rfl
+  rw [v01_shape.2.2.1]
+  simp only [toBytes, envTo, e0, e1, e2, e3, e4, e5, layoutRxV0]
+  simp
+
+/-- Rx PDU version 1; a NOPE indication (`nope = 1`) carries no burst whatever the dict holds -/
+theorem layout_rx_v1 (tn fn : Nat) (rssi toa256 : Int) (nope mod tsc : Nat) (ci : Int) (bits : List Nat)
+    (h1 : tn < 8) (h2 : fn < 4294967296) (h3 : -255 ≤ rssi ∧ rssi ≤ 0) (h4 : -32768 ≤ toa256 ∧ toa256 ≤ 32767)
+    (h5 : mod < 16) (h6 : tsc < 8) (h7 : -32768 ≤ ci ∧ ci ≤ 32767) (hn : nope < 2) :
+    toBytes pduV1Rx (valsRxV1 tn fn rssi toa256 nope mod tsc ci [("soft-bits", .bytes bits)])
+      = .ok (layoutRxV1 tn fn rssi toa256 nope mod tsc ci (if nope = 0 then bits else [])) := by
+  generalize hv : valsRxV1 tn fn rssi toa256 nope mod tsc ci [("soft-bits", .bytes bits)] = v
+  have g : ∀ k x, Vals.get (valsRxV1 tn fn rssi toa256 nope mod tsc ci [("soft-bits", .bytes bits)]) k = x →
+      Vals.get v k = x := by intro k x h; rw [← hv]; exact h
+  have e0 := hdr1_enc 1 1 tn v rfl (by omega) h1 (g _ _ (by simp [valsRxV1, Vals.get]))
+  have e1 := u32_enc "fn" v fn (g _ _ (by simp [valsRxV1, Vals.get])) h2
+  have e2 := neg_u8_enc "rssi" v rssi (g _ _ (by simp [valsRxV1, Vals.get])) h3.1 h3.2
+  have e3 := i16_enc "toa256" v toa256 (g _ _ (by simp [valsRxV1, Vals.get])) h4.1 h4.2
+  have e4 := mts_enc nope mod tsc v hn h5 h6 (g _ _ (by simp [valsRxV1, Vals.get]))
+    (g _ _ (by simp [valsRxV1, Vals.get])) (g _ _ (by simp [valsRxV1, Vals.get]))
+  have e5 := i16_enc "cir" v ci (g _ _ (by simp [valsRxV1, Vals.get])) h7.1 h7.2
+  have gn : Vals.get v "nope" = .ok (.int nope) := g _ _ (by simp [valsRxV1, Vals.get])
+  have e6 : fieldTo (.buf "soft-bits" (.flagFalse "nope") (.table "mod" burstTable)) v
+      = .ok (if nope = 0 then bits else []) := by
+    by_cases h0 : nope = 0
+    · subst h0
+      rw [if_pos rfl]
+      exact fieldTo_buf_eval "soft-bits" _ v bits (g _ _ (by simp [valsRxV1, Vals.get])) rfl _
+        (by simp [getPres, gn, Val.truthy])
+    · rw [if_neg h0]
+      exact fieldTo_absent_eval _ v (by simp [FDef.pres, getPres, gn, Val.truthy, h0]) (by intros; simp)
+  rw [v01_shape.2.2.2]
+  simp only [toBytes, envTo, e0, e1, e2, e3, e4, e5, e6, layoutRxV1]
+  simp
+
+/-- reserved bits are sent as zero: bit 3 of the header octet and nothing above the 8 bits of the MTS octet -/
+theorem reserved_sent_zero (ver tn nope mod tsc : Nat) (h0 : ver < 16) (h1 : tn < 8) (h2 : nope < 2) (h3 : mod < 16)
+    (h4 : tsc < 8) : hdrOctet ver tn / 8 % 2 = 0 ∧ hdrOctet ver tn < 256 ∧ mtsOctet nope mod tsc < 256 := by
+  simp only [hdrOctet, mtsOctet]; omega
+
 end OsmoVerif.Props.C17
